@@ -271,6 +271,17 @@ theorem vk_fromPem_err (E : Ext) (hsq : ∀ c ∈ Gen.curveTable, SqrtSpec E.sqr
     exact Or.inl (unpem_err E pem _ he)
   · exact vk_fromDer_err E hsq _ e h
 
+theorem sk_fromPem_err' (E : Ext) (pem : Bytes) (e : PyErr) (h : SK.fromPem E pem = .error e) : Documented e := by
+  unfold SK.fromPem at h
+  simp only at h
+  split at h
+  · injection h with h; exact Or.inl h.symm
+  · split at h
+    · rename_i e' he
+      injection h with h; subst h
+      exact Or.inl (unpem_err E _ _ he)
+    · exact sk_fromDer_err' E _ e h
+
 theorem sk_fromPem_err (E : Ext) (hpub : ∀ c ∈ Gen.curveTable, PubSpec E c) (pem : Bytes) (e : PyErr)
     (h : SK.fromPem E pem = .error e) : Documented e := by
   unfold SK.fromPem at h
